@@ -14,6 +14,7 @@
 From Coq Require Import List ZArith Bool Arith Lia Sorting.Sorted Permutation.
 From PQ Require Import Merge.Model Merge.Instance Merge.AbstractProofs Merge.DedupeProofs
      Merge.InstanceProofs Sort.Writer.
+From PQ Require Sort.Model Sort.ListLemmas Merge.TreeProofs Merge.ProgressProofs.
 Import ListNotations.
 Local Open Scope nat_scope.
 
@@ -493,6 +494,83 @@ Section WriterProofs.
   Qed.
 End WriterProofs.
 
+(** ** the contract of sort.Sort on the RowBuffer gives [sort_contract] *)
+Section RowBufferSort.
+  Variable A : Type.
+  Variable cmp : A -> A -> Z.
+  Hypothesis cmp_opp : forall a b, (cmp a b < 0 <-> cmp b a > 0)%Z.
+  Hypothesis cmp_trans : forall a b d, (cmp a b <= 0 -> cmp b d <= 0 -> cmp a d <= 0)%Z.
+
+  (* RowBuffer.Less is a strict weak order on the rows of the buffer *)
+  Definition rb_swo_n (l : list A) (n : nat) : Prop :=
+    (forall i, i < n -> rb_less A cmp l i i = false) /\
+    (forall i j k, i < n -> j < n -> k < n ->
+       rb_less A cmp l i j = true -> rb_less A cmp l j k = true -> rb_less A cmp l i k = true) /\
+    (forall i j k, i < n -> j < n -> k < n ->
+       rb_less A cmp l i j = false -> rb_less A cmp l j i = false ->
+       rb_less A cmp l j k = false -> rb_less A cmp l k j = false ->
+       rb_less A cmp l i k = false /\ rb_less A cmp l k i = false).
+
+  Definition rb_swo (l : list A) : Prop := rb_swo_n l (length l).
+
+  Lemma rb_less_swo l : rb_swo l.
+  Proof.
+    unfold rb_swo, rb_swo_n, rb_less. split; [|split].
+    - intros i Hi. destruct (nth_error l i) as [a|]; auto.
+      rewrite (cmp_refl A cmp cmp_opp). reflexivity.
+    - intros i j k Hi Hj Hk.
+      destruct (nth_error l i) as [a|]; [|discriminate].
+      destruct (nth_error l j) as [b|]; [|discriminate].
+      destruct (nth_error l k) as [d|]; [|discriminate].
+      rewrite !Z.ltb_lt. intros H1 H2.
+      apply (cmp_lt_le_trans A cmp cmp_opp cmp_trans) with b; auto. lia.
+    - intros i j k Hi Hj Hk.
+      destruct (nth_error l i) as [a|] eqn:Ei; [|apply nth_error_None in Ei; lia].
+      destruct (nth_error l j) as [b|] eqn:Ej; [|apply nth_error_None in Ej; lia].
+      destruct (nth_error l k) as [d|] eqn:Ek; [|apply nth_error_None in Ek; lia].
+      rewrite !Z.ltb_ge. intros H1 H2 H3 H4.
+      assert (T1 := cmp_trans a b d). assert (T2 := cmp_trans d b a).
+      assert (O1 := cmp_opp a b). assert (O2 := cmp_opp b a). assert (O3 := cmp_opp b d).
+      assert (O4 := cmp_opp d b). assert (O5 := cmp_opp a d). assert (O6 := cmp_opp d a). lia.
+  Qed.
+
+  Lemma rb_swaps_perm sws : forall l, Permutation (rb_swaps A l sws) l.
+  Proof.
+    induction sws as [|p sws IH]; intros l; simpl; auto.
+    eapply perm_trans; [apply IH|]. apply Sort.ListLemmas.swapl_perm.
+  Qed.
+
+  Lemma adjacent_sorted l :
+    (forall i a b, nth_error l i = Some a -> nth_error l (S i) = Some b -> (cmp a b <= 0)%Z) ->
+    le_sorted A cmp l.
+  Proof.
+    induction l as [|x t IH]; intros H; [constructor|].
+    assert (Ht : le_sorted A cmp t) by (apply IH; intros i a b Ha Hb; apply (H (S i)); auto).
+    constructor; auto.
+    destruct t as [|y t']; [constructor|].
+    assert (Hxy : (cmp x y <= 0)%Z) by (apply (H 0); reflexivity).
+    constructor; auto. inversion Ht as [|? ? _ Hf]; subst.
+    eapply Forall_impl; [|exact Hf]. intros z Hz. simpl in Hz. eapply cmp_trans; eauto.
+  Qed.
+
+  (* sort.Sort only calls Len, Less and Swap; when Less is a strict weak order
+     the exchanges it performs leave no adjacent inversion *)
+  Variable sort_swaps : list A -> list (nat * nat).
+  Hypothesis sort_sorts : forall l, rb_swo l ->
+    forall i, S i < length l -> rb_less A cmp (rb_swaps A l (sort_swaps l)) (S i) i = false.
+
+  Theorem rb_sort_contract : sort_contract A cmp (fun l => rb_swaps A l (sort_swaps l)).
+  Proof.
+    intros l. split; [apply rb_swaps_perm|]. apply adjacent_sorted. intros i a b Ha Hb.
+    assert (Hlen : length (rb_swaps A l (sort_swaps l)) = length l)
+      by (apply Permutation_length, rb_swaps_perm).
+    assert (Hi : S i < length l).
+    { rewrite <- Hlen. apply nth_error_Some. congruence. }
+    assert (H := sort_sorts l (rb_less_swo l) i Hi). unfold rb_less in H. rewrite Ha, Hb in H.
+    apply Z.ltb_ge in H. assert (O := cmp_opp a b). assert (O' := cmp_opp b a). lia.
+  Qed.
+End RowBufferSort.
+
 Lemma isort_contract (A : Type) (cmp : A -> A -> Z) :
   (forall a b, (cmp a b < 0 <-> cmp b a > 0)%Z) ->
   (forall a b d, (cmp a b <= 0 -> cmp b d <= 0 -> cmp a d <= 0)%Z) ->
@@ -511,4 +589,26 @@ Lemma ref_merge_contract (A : Type) (cmp : A -> A -> Z) :
   merge_contract A cmp (ref_merge_all cmp).
 Proof.
   intros Ho Ht st _. unfold ref_merge_all. apply (ref_merge_sched A cmp Ho Ht). lia.
+Qed.
+
+(** the merged reader of merge.go (any number of row groups, any chunking of
+    the sources, slices of [b] rows), read to io.EOF, meets the contract:
+    C09_mergeK_refines and C09_mergeK_terminates *)
+Definition mergek_all {A : Type} (cmp : A -> A -> Z) (chunks : list (list (row A)) -> list (list nat))
+           (b : nat) (st : list (list (row A))) : list (row A) :=
+  concat (fst (fst (mergek cmp st (chunks st) (repeat b (length (concat st) + 2))))).
+
+Lemma mergek_all_contract (A : Type) (cmp : A -> A -> Z) chunks b :
+  (forall a b, (cmp a b < 0 <-> cmp b a > 0)%Z) ->
+  (forall a b d, (cmp a b <= 0 -> cmp b d <= 0 -> cmp a d <= 0)%Z) ->
+  1 <= b -> merge_contract A cmp (mergek_all cmp chunks b).
+Proof.
+  intros Ho Ht Hb st Hs. unfold mergek_all.
+  destruct (mergek cmp st (chunks st) (repeat b (length (concat st) + 2))) as [[outs eof] m'] eqn:E.
+  assert (Eof : eof = true).
+  { apply (Merge.ProgressProofs.mergek_terminates A cmp Ho Ht st (chunks st) _ outs eof m' Hs); auto.
+    - apply Forall_forall. intros n Hn. apply repeat_spec in Hn. subst n. exact Hb.
+    - rewrite repeat_length. lia. }
+  destruct (Merge.TreeProofs.mergek_refines A cmp Ho Ht st (chunks st) _ outs eof m' Hs E) as [R1 R2].
+  cbn [fst]. eexists. split; [exact R1|exact (R2 Eof)].
 Qed.
